@@ -15,7 +15,9 @@ import (
 )
 
 var checks = map[string]func(tier string){
+	"C01": sworld.RunC01,
 	"C04": sworld.RunC04,
+	"C05": sworld.RunC05,
 	"C14": c14.Run,
 	"C19": c19.Run,
 }
